@@ -101,6 +101,14 @@ def K10_nested_column_called_base():
     out["all_columns"] = sorted(nf.all_columns)
     return out["reduce"] == "KeyError" or out["sort_values"] == "KeyError" or out["all_columns"] == ["base"], out
 
+@case
+def K11_two_colliding_sibling_names_in_one_expression():
+    nf = NestedFrame({"id": [0, 1]}, index=[0, 1]).add_nested(
+        pd.DataFrame({"t (s)": [1.0, 2.0, 3.0], "t_(s)": [10.0, 20.0, 30.0]}, index=[0, 0, 1]), "n")
+    alone = [nf.eval("n.`t (s)` + 0").tolist(), nf.eval("n.`t_(s)` + 0").tolist()]
+    both = nf.eval("n.`t (s)` + n.`t_(s)`").tolist()
+    return alone == [[1.0, 2.0, 3.0], [10.0, 20.0, 30.0]] and both != [11.0, 22.0, 33.0], {"alone": alone, "both": both}
+
 if __name__ == "__main__":
     for k, (violated, d) in R.items():
         print(("STILL-VIOLATED " if violated else "NOT-REPRODUCED "), k, "--", d)
